@@ -60,6 +60,11 @@ CHECKS["C17"] = dict(cat="other", technique="syntactic ranking argument on the r
     note="Trusted: rustc MIR construction; the caller's halt closure terminates. Not decided: evaluator agreement, tangent, convex hull, continuity.",
     ref="§3 C17")
 
+CHECKS["C09"] = dict(cat="other", technique="symbolic abstract interpretation of the matrix/vector functions' MIR over a commutative-ring domain; results compared as polynomial identities over Q (rotations modulo sin^2+cos^2=1)",
+    text="Decides the algebraic half of the property over the reals: compose is the matrix product and then() is compose() swapped (3x3, 4x4); applying a composition equals applying the parts in order (apply and apply_pt, affine matrices); the determinant is multiplicative (1008-term identity) and det(I)=1; transpose swaps indices; translate/scale/from_basis have their defining effect on points; rotate_x/y/z are orthogonal with determinant 1 and fix their axis; dot is the symmetric bilinear form and cross is anticommutative and orthogonal to its operands. One known finding: apply() gives vectors the homogeneous coordinate 1, so a translation moves vectors (pinned by the existing tests, recorded in known_findings.txt).",
+    note="Trusted: rustc MIR construction; the symbolic interpreter's models of iterator adaptors, array::from_fn/map and Into/From wrappers. Not decided: the Gauss-Jordan inverse (branches on float magnitudes), conditioning, every float rounding effect.",
+    ref="§8.7 C09")
+
 NA = {}
 
 
